@@ -1,9 +1,10 @@
 SPECIFICATION Spec
 CONSTANTS
   Deviations <- RealDevs
-  RuleSets <- S_dblw
-  MaxDepth = 1
+  RuleSets <- Q_mul1
+  MaxDepth = 2
   Wide = FALSE
+INVARIANT PropertyHolds
 INVARIANT DeviationsExplain
 INVARIANT Emit
 CHECK_DEADLOCK FALSE
